@@ -21,6 +21,7 @@ mod c12;
 mod c13;
 mod c14;
 mod c15;
+mod c17;
 mod c19;
 mod c20;
 
@@ -42,6 +43,7 @@ fn table() -> Vec<(&'static str, RunFn, RecheckFn)> {
         ("C09", c09::run, c09::recheck),
         ("C10", c10::run, c10::recheck),
         ("C11", c11::run, c11::recheck),
+        ("C17", c17::run, c17::recheck),
         ("C18", c18::run, c18::recheck),
         ("C12", c12::run, c12::recheck),
         ("C13", c13::run, c13::recheck),
